@@ -223,6 +223,8 @@ def sysLine (m : MState) (line : String) : MState :=
     let w := sampleConfigId w "/simul_efun.c"
     ({ m with sys := { m.sys with w := w } }).emit s!"restarted {w.configId}"
   | "expect" :: _ => m
+  | ["badload", name] =>
+    ((m.emit s!"lb {name}.c stale").emit s!"err *Error in loading object '/{name}':").emit s!"badload {name} failed"
   | ["foreign", name, what] =>
     let bp := binPath m.sys.w name
     match m.sys.w.bins.lookup bp with
